@@ -29,9 +29,29 @@ CLAIMS = {
          "encoding/binary.BigEndian methods are modelled by assumed dependency contracts; JSON codec and Unsafe.DumpEntities/LoadEntities are not claimed"),
  "C20": ("proof", "All mask methods of both widths are proved against the same set-of-bits view, and the lemmas maskRelView / maskViewRel / maskNotRel prove that a 64-bit mask and a 256-bit mask are related (first word equal, others zero) iff they have the same view, so for component ids < 64 the two builds compute the same results mask-wise. Debug-vs-release equivalence of the query accessors is not claimed yet.", "6 C20",
          "lifting from per-method equivalence to whole histories is a meta-argument; ark_debug functions not under contract"),
+ "C01": ("proof", "Local obligations of the component store: capPow2 is the least power of two >= n (n <= 2^31), idMap Get/Set is a total map that survives growth, storage.createEntity/RemoveEntity preserve every conjunct of the index invariant except the two row<->index bijection conjuncts (those are generated and listed as unclaimed), the swap-remove preconditions and the index fix-up bounds are proved, table Extend/Shrink keep the rows (ghost rowEnt). Data-plane functions (table.Add/Remove/GetEntity/adjustCapacity) are used through trusted contracts.", "6 C01",
+         "reduced strength (DESIGN 8.3 fallback): no value-level (cell) postconditions, no add/remove/exchange contracts; the central bijection conjuncts of indexInv are NOT discharged within the time limits and are not claimed"),
+ "C04": ("proof", "tableIDs (list + inverse map used for every relation index) Append/Remove/Clear are proved against the set view with frames; table.Matches compares the full target including generation; storage.RemoveEntity detaches through cleanupArchetypes (trusted contract) and keeps the pool/index conjuncts listed in evidence; the protocol obligation that every freed table leaves the cache (found F-7) and the repaired FreeTable un-indexing are covered by the pairing pass and replays.", "6 C04",
+         "cleanupArchetypes, createTable, AddTable, RemoveTarget are not proved from their bodies"),
+ "C05": ("proof", "Registered filters stay in step with table life-cycle events: the protocol obligations 'FreeTable is followed by cache.removeTable' and 'AddTable is followed by cache.addTable' hold on every path of every function (SSA pass; found F-7 in Shrink, fixed); filter.matches and table.Matches (used by cache.addTable and getCacheTables) equal the documented predicates; tableIDs and intPool[cacheID] (fresh cache ids) are proved; cache.removeTable removes the table from every entry and keeps other members (loop invariants 'done'/'others' discharged, per-entry invariant preservation unclaimed).", "6 C05",
+         "cache.register/unregister/addTable/getCacheTables/Reset are not proved from their bodies; open-query stability (F-16) is not examined"),
+ "C09": ("proof", "For entity removal: at the point where the removal callbacks run, the removed entity is proved to be alive, to be a live pool slot holding exactly that handle, and to be located at exactly the row its index entry names (assert obligations in storage.RemoveEntity), and the world lock is taken around the callbacks and released afterwards (lock balance). The dispatch obligations of C08 give which observers run.", "6 C09",
+         "only RemoveEntity; add/remove/exchange/batch call sites (F-5, F-6, F-10 of DESIGN 7) are not under contract"),
+ "C10": ("proof", "Alive-guard obligation on the SSA of every exported operation with an entity-handle parameter (165 parameters): the entity index is not indexed with the handle's id, directly or through callees, before the handle passed an Alive check whose failure branch does not continue (found F-4 in CopyEntity, fixed). storage.RemoveEntity is additionally proved to panic exactly for a dead handle without changing anything (xpure), and the lock guard of C07 covers 'changing a locked world'.", "6 C10",
+         "duplicate/missing component and relation-target rejections (graph.Find*, checkRelation*) are not under contract; 'state unchanged after the panic' is proved only for RemoveEntity"),
+ "C13": ("other", "Lock-set discipline on the SSA: in every function that locks a sync.Mutex field, fields written under the mutex are never accessed without it (found the FilterN.Query race F-9, recorded as known finding with a race-detector replay), and LockSafe/UnlockSafe use no other field of the lock outside their critical section; the sequential contracts of lock/bitPool (C07) then apply atomically. No schedules are explored.", "6 C13",
+         "level other: a sufficient condition; exactness of concurrent queries relies on C03/C07 and DRF-SC; the ownership of query values by one goroutine is assumed"),
+ "C15": ("proof", "table.Shrink / CanShrink are proved: after Shrink len <= cap, cap == max(capPow2(len), minimum) when it shrank and cap <= that bound when it did not, CanShrink says exactly whether Shrink would shrink, rows (ghost rowEnt) are preserved; capPow2 is the least power of two; the protocol obligation that a table freed by storage.Shrink leaves the filter cache holds (found F-7, fixed) and World.Shrink checks the world lock (found F-23, fixed).", "6 C15",
+         "storage.Shrink's loops (time-boxed pass, remaining-work scan, convergence) are not under contract"),
+ "C19": ("proof", "table.Stats/UpdateStats produce exactly size, capacity and the documented memory products and the in-place update equals the fresh computation; entityPool.Len equals the ghost live counter that Get increments and Recycle decrements (creations minus removals), Cap = used + recycled, TotalCap >= Cap.", "6 C19",
+         "archetype.Stats/UpdateStats and World.Stats (sums over tables and archetypes) are not under contract"),
 }
 
-NA = {}
+NA = {
+ "C06": "not decided: the batch operations (exchangeBatch, setRelationsBatch, RemoveEntities, NewEntities and the *BatchFn wrappers) have 5-11 loops each over callees that are not yet under contract; only the lock balance of these functions (C07) and the relation predicate table.Matches are checked, which does not carry the property",
+ "C11": "not decided: zeroing and GC-safe copying live in the data-plane functions (column.*, table.Remove/adjustCapacity, copyPtr/copyValue), which this family treats through trusted contracts; the bounded harness of DESIGN 4.1 that would check those contracts against the real bodies was not built, and collectability under a concurrent collector is a runtime property no contract expresses",
+ "C14": "not decided: the ~650 generated methods need schema-instantiated contracts (DESIGN 6 C14) on top of contracts for the ID-based operations (add/remove/exchange/get), which are not yet under contract",
+}
 DEFAULT_NA = "check not built yet in this session (engine exists; contracts for the functions this property is anchored in are still to be written; see DESIGN.md section 8.3)"
 
 props = [json.loads(l) for l in open('/verif/properties.jsonl')]
